@@ -54,7 +54,7 @@ check("C09", "fault_enumeration",
       "deterministic simulation with enumerated fault injection (every fd-allocation failure position per program) + reference redirection-table model", "DESIGN.md section 4 C09")
 
 check("C08", "exploration",
-      "Generated programs place 41 kinds of state-mutating commands (including closing descriptor 0, array values, starting asynchronous jobs, assignments made by `${x:=v}` and `$((x=1))`, and setting `$?`) before and inside every kind of subshell (( ), $( ), both pipeline elements, asynchronous lists, nested to depth 3); a probe serialises the complete shell state (`$?`, variables+attributes, positional parameters, functions, aliases, options, traps, cwd, umask, limits, descriptor table by open-file-description identity, signal dispositions, mask) around each one. Oracles: the parent's snapshot is unchanged by whatever the child does - also while an asynchronous child is still running, under seeded schedules with preemption between any two kernel calls of the parent; the child's entry snapshot equals the parent's except exactly the documented differences (context stack: the parent's plus the subshell frames; a third of the tests run inside a loop body or an `if` condition); data written to shared files/pipes arrives (positive control). Crash-injection runs (children killed with SIGKILL from outside at seeded instants) keep the leak oracle and check every snapshot that was still taken; so do runs in which one seeded descriptor allocation fails with EMFILE and runs under a descriptor limit of 10 (no descriptor for the shell's own use can be allocated; job control switched on afterwards). A virtual fork is an in-memory clone sharing reference-counted parts, so leaks are schedule dependent - which only a controlled scheduler explores.",
+      "Generated programs place 41 kinds of state-mutating commands (including closing descriptor 0, array values, starting asynchronous jobs, assignments made by `${x:=v}` and `$((x=1))`, and setting `$?`) before and inside every kind of subshell (( ), $( ), both pipeline elements, asynchronous lists, nested to depth 3); a probe serialises the complete shell state (`$?`, variables+attributes, positional parameters, functions, aliases, options, traps, cwd, umask, limits, descriptor table by open-file-description identity, signal dispositions, mask) around each one. Oracles: the parent's snapshot is unchanged by whatever the child does - also while an asynchronous child is still running, under seeded schedules with preemption between any two kernel calls of the parent; the child's entry snapshot equals the parent's except exactly the documented differences (context stack: the parent's plus the subshell frames; a third of the tests run inside a loop body or an `if` condition); data written to shared files/pipes arrives (positive control). Crash-injection runs (children killed with SIGKILL from outside at seeded instants) keep the leak oracle and check every snapshot that was still taken; so do runs in which one seeded descriptor allocation fails with EMFILE and runs under a descriptor limit of 10 (no descriptor for the shell's own use can be allocated; job control switched on afterwards). Every program also runs once in an interactive shell (the shell's own signal handling must not be handed down to its subshells). A virtual fork is an in-memory clone sharing reference-counted parts, so leaks are schedule dependent - which only a controlled scheduler explores.",
       BASE_NOTE, "deterministic simulation: full-state snapshots around subshells under seeded schedules with preemption", "DESIGN.md section 4 C08")
 
 check("C15", "exploration",
